@@ -512,7 +512,7 @@ func genRules(r *simkit.RNG, sc *Scenario, k *knobs) string {
 			return s
 		default:
 			if k.metaRules && r.Chance(1, 3) {
-				return simkit.Pick(r, []string{"a+b", "x(y)", "p|q", "^a", "a{2}", "(a", "a)", "a$"})
+				return simkit.Pick(r, []string{"a+b", "x(y)", "p|q", "^a", "a{2}", "(a", "a)", "a$", "[a-c]", "[^a]", "[^a-c]", "[^b]*", "[ab]", "[^ab].tf"})
 			}
 			return simkit.Pick(r, names)
 		}
@@ -795,6 +795,10 @@ func genRuns(r *simkit.RNG, sc *Scenario, k *knobs, profile string) {
 		p := run()
 		if r.Chance(1, 12) {
 			p.Spelling = "symlink-loop" // the source argument is a link whose chain never ends
+		}
+		if nr := simkit.NewRNG(sc.Seed, "pw/not-a-dir"); nr.Chance(1, 10) {
+			// the source argument is a regular file, or a link to one: there is no tree to pack
+			p.Spelling = simkit.Pick(nr, []string{"not-a-dir", "link-to-file"})
 		}
 		sc.Runs = []PackRun{p}
 		if k.rules && r.Chance(1, 4) {
